@@ -72,6 +72,16 @@ Proof.
   intros _. exists key. split; auto.
 Qed.
 
+(* a successful Put reports the item it replaced (nothing when the key held nothing): what ReturnValues = ALL_OLD answers *)
+Lemma put_returns_replaced c t it cond names vals t' old f :
+  t_put lang_match c t it cond names vals = (t', WOk old f) ->
+  exists key, get_key (t_ks t) (t_defs t) it = inr key /\ old = lookup key (t_data t).
+Proof.
+  unfold t_put. destruct (get_key _ _ _) as [e|key]; [intros E; inversion E|].
+  destruct (check_cond _ _ _ _ _ _ _) as [[[] f0]| | |]; try (intros E; inversion E; fail).
+  destruct (validate_index_keys _ _ _); intros E; inversion E; subst. eauto.
+Qed.
+
 Lemma put_then_get c t it cond names vals t' r key :
   t_put lang_match c t it cond names vals = (t', r) -> is_ok r = true ->
   get_key (t_ks t) (t_defs t) it = inr key -> get_item t' key = it.
